@@ -14,8 +14,7 @@ RULE = ("correspondence: one driver line per call (fi, rol, compress, pure_ripem
 PARTIAL = ["SHA-256 and the native (OpenSSL) / PyCrypto RIPEMD-160 are parameters of the theorems (oracles answered by "
            "hashlib); hash160/double_sha256 are proved as compositions/selection only",
            "messages of 2^61 bytes and more (struct.error in the code) and murmur3 inputs of 2^32 bytes and more are "
-           "outside the theorems (not reachable in practice)",
-           "Bloom filter: the empty filter with k > 0 is excluded (known finding bloom-empty-filter-zerodiv)"]
+           "outside the theorems (not reachable in practice)"]
 TRUSTED = ["struct.pack/unpack '<L' '<Q' modelled as fixed-width little-endian with struct.error outside the range",
            "harness/gens/ripemd_c19.py (tables, initial state, every integer literal of the modelled functions, "
            "cross-checked live module vs source)",
@@ -476,14 +475,10 @@ def replay_input(check, inp):
 
 
 def classify(pc, r):
-    if pc.name == "bloom_bip37" and r.get("kind") == "bloom-add-item-zerodivision" and pc.inp["size"] == 0 and pc.inp["k"] > 0:
-        return "bloom-empty-filter-zerodiv"
     return None
 
 
-KNOWN_REPLAYS = {
-    "bloom-empty-filter-zerodiv": lambda: chk_bloom(0, 1, 0, [b""]),
-}
+KNOWN_REPLAYS = {}
 
 
 def _parse(tok):
